@@ -11,7 +11,8 @@ RULE = ("generated problems with, per variable, bound kinds None / scalar / +-in
         "control grids with all interpolation modes x histories (absent, one point, several points, NaN "
         "at t0, NaN before t0) x 1-3 members; lbx / ubx and the initial-derivative rows of transcribe() "
         "are compared entry by entry. non-trivial = a Timeseries bound or a history; distinct = "
-        "abstracted problem shapes")
+        "abstracted problem shapes"
+        ' Also: scalar and vector path variables (per-component bounds), extra variables, a second bound source merged with merge_bounds, histories with gaps further back than the last two points.')
 MODELLED = ("_collint_get_lbx_ubx (2046-2127), the history / initial-derivative pins and rows of transcribe() "
             "(1276-1349), initial-derivative nominals (265-294)")
 NOT_MODELLED = "vector-valued variables (per-component bounds), bounds merged from several sources (C19 merge_bounds, C14)"
